@@ -67,6 +67,28 @@ Theorem C18_alignment_stores_a_copy :
 Proof. exact (@ali_assign_new_group). Qed.
 Print Assumptions C18_alignment_stores_a_copy.
 
+(* 3c. `fam[k].copy(new_residues)` / `fam[k].deep_copy(new_residues)` with residues supplied by another
+      handle (its own Residue objects, a list of copies of them, the residues of a system instance):
+      no existing cell is written, and when it does not raise the new molecule's coordinate atoms are
+      ALL freshly allocated and it starts a new coordinate group (a deep copy a new topology group too),
+      so supplier and new molecule are isolated both ways by C18_isolation. *)
+Theorem C18_graft_footprint :
+  forall (T : Type) (S : Scalar T) (h : heap T) (fam : family T) k deep mode j i h' fam' r,
+  step_graft (h, fam) k deep mode j i = ((h', fam'), r) -> ext nonep nonep nonep h h'.
+Proof. exact (fun T _ => @step_graft_ext T). Qed.
+Print Assumptions C18_graft_footprint.
+
+Theorem C18_graft_copies_the_residues :
+  forall (T : Type) (S : Scalar T) (h : heap T) (fam : family T) k deep mode j i h1 fam1,
+  wf h fam -> step (h, fam) (k, OCopyWith deep mode j i) = ((h1, fam1), Ok tt) ->
+  exists g tg mt ts rs mt' ts' rs' gj tj src,
+    nth_error fam k = Some (g, tg, HM mt ts rs) /\ nth_error fam j = Some (gj, tj, src) /\
+    fam1 = fam ++ [(length fam, (if deep then length fam else tg), HM mt' ts' rs')] /\ wf h1 fam1 /\
+    length fam <> gj /\ length fam <> g /\
+    fresh_in (length (hgro h)) (length (hgro h1)) (concat rs').
+Proof. exact (@graft_new_group). Qed.
+Print Assumptions C18_graft_copies_the_residues.
+
 (* 4. ISOLATION.  For EVERY operation sequence (any length, exceptions included) none of whose
       operations is applied to a handle of X's coordinate group - i.e. all of them on copies of X,
       on copies of copies, on their views ... or, vice versa, on the original and its views when X
@@ -178,6 +200,10 @@ Proof. exact (conj demo_deep_wf demo_deep_avoids). Qed.
 Example C18_nonvacuous_alignment : wf (@demo_ali_heap R _) demo_ali_fam /\
   snd (step (@demo_ali_heap R _, demo_ali_fam) (2%nat, OAliSet true (Some 0%nat))) = Ok tt.
 Proof. exact (conj demo_ali_wf (proj1 demo_ali_steps)). Qed.
+(* grafting the copy's residues onto the original goes through (plain and deep) *)
+Example C18_nonvacuous_graft :
+  snd (step (@demo_heap R _, demo_fam) (0%nat, OCopyWith false 0 1 0)) = Ok tt.
+Proof. exact (proj1 demo_graft_steps). Qed.
 (* an orthogonal matrix that is not the identity (quarter turn about z), a non-empty body *)
 Example C18_nonvacuous_rotation :
   mmul (mtrans (mkM (mk3 0 (-1) 0) (mk3 1 0 0) (mk3 0 0 1))) (mkM (mk3 0 (-1) 0) (mk3 1 0 0) (mk3 0 0 1)) = (mid : M3 R).
